@@ -120,6 +120,18 @@ def check_relative(run):
         segment = run.rng.choice([0, 0, 1])
         cfg = {"range_x": [a, b], "gcf_k": k, "segment": segment,
                "seed": 100 + i}
+        if i == 6:
+            # recorded without baseline (the tip already inside the sample):
+            # the fitted contact point lies outside the abscissa range and
+            # still anchors the interval
+            true_nb = fits.default_params("hertz_para", contact_point=2e-7,
+                                          E=4000.0)
+            cols = fits.model_curve("hertz_para", true_nb, n_app=90, n_ret=45,
+                                    z0=5e-8, z1=-2e-6, noise=2e-11,
+                                    rng=np.random.default_rng(100 + i))
+            a, b, k, segment = -1.2e-6, 5e-7, 1.0, 0
+            cfg = {"range_x": [a, b], "gcf_k": k, "segment": segment,
+                   "seed": 100 + i, "no-baseline": True}
         idnt = curves.make_indentation(cols)
         with fits.MinimizeCapture() as cap:
             idnt.fit_model(model_key="hertz_para", range_type="relative cp",
